@@ -685,7 +685,83 @@ def det_prog(rng):
         return [("a.s", "\n".join(funcs[0] + main + [l for f in funcs[1:] for l in f]) + "\n")], "a.s"
     if rng.random() < 0.5 or nf == 0:
         return [("a.s", "\n".join(main + [l for f in funcs for l in f]) + "\n")], "a.s"
-    files = [("a.s", "\n".join(main) + "\n" + "".join('.include "f%d.s"\n' % i for i in range(nf)))]
-    for i, f in enumerate(funcs):
-        files.append(("f%d.s" % i, "\n".join(f) + "\n"))
+    # included files: flat names, or the SAME file name in different directories
+    names = ["f%d.s" % i for i in range(nf)] if rng.random() < 0.5 else ["d%d/util.s" % i for i in range(nf)]
+    files = [("a.s", "\n".join(main) + "\n" + "".join('.include "%s"\n' % n for n in names))]
+    for n, f in zip(names, funcs):
+        files.append((n, "\n".join(f) + "\n"))
     return files, "a.s"
+
+
+def csr_mem_prog(rng):
+    """memory reached through a base address held in a CSR (trap-handler save areas) and through sp, at negative,
+    zero, positive and extreme offsets: every spelling of a memory-location key appears in the value maps"""
+    L = ["main:"]
+    csr = rng.choice(["uscratch", "0x40", "64", "utvec", "0x5"])
+    base = rng.choice(["t0", "t1", "a3", "s2"])
+    L.append(rng.choice(["csrrw %s, %s, zero", "csrr %s, %s", "csrrs %s, %s, zero"]) % (base, csr))
+    offs = [0, -4, 4, 8, -8, -2048, 2047, rng.randrange(-2048, 2048), rng.randrange(-64, 64) * 4]
+    for _ in range(rng.randrange(1, 6)):
+        o = rng.choice(offs)
+        k = rng.random()
+        if k < 0.5:
+            L.append("%s %s, %d(%s)" % (rng.choice(["sw", "sw", "sh", "sb"]), rng.choice(["a0", "a1", "t3", "zero"]), o, base))
+        elif k < 0.7:
+            L.append("%s %s, %d(%s)" % (rng.choice(["lw", "lh", "lbu"]), rng.choice(["a2", "t4"]), o, base))
+        elif k < 0.85:
+            L.append("addi %s, %s, %d" % (base, base, rng.choice([4, -4, 16, -12])))
+        else:
+            L.append("sw %s, %d(sp)" % (rng.choice(["a0", "ra", base]), rng.choice([-4, -8, 0, 4, -2048])))
+    L += ["li a7, 10", "ecall"]
+    return "\n".join(L) + "\n"
+
+
+def illformed(rng):
+    """a small valid program with ONE defect that makes the analysis stop; returns (text, kind, name, lines) where
+    `lines` are the 0-based lines at which the error may be located (an occurrence of the name that is at fault)"""
+    body = ["main:", "li a0, %d" % rng.randrange(0, 9), "jal f", "beqz a0, skip", "addi a0, a0, 1", "skip:", "li a7, 10", "ecall",
+            "f:", "addi a0, a0, 2", "ret"]
+    data = [".data", "count: .word 0", "msg: .asciz \"hi\"", ".text"]
+    L = (data + body) if rng.random() < 0.5 else (body + data[:-1])
+    k = rng.choice(["dup-adjacent", "dup-data", "dup-sep", "dup-trailing", "dup-directive-between", "dup-code-data", "undefined-jump",
+                    "undefined-branch", "undefined-la", "undefined-call", "label-at-eof", "no-return"])
+    name = rng.choice(["x", "loop", "count2", "Lbl_1", "end"])
+    if k == "dup-adjacent":
+        i = L.index("addi a0, a0, 1")
+        L[i:i] = ["%s:" % name, "%s:" % name]
+        return "\n".join(L) + "\n", "duplicatelabel", name, [i + 1]
+    if k == "dup-data":
+        i = L.index("count: .word 0")
+        L.insert(i + 1, "count: .word 4")
+        return "\n".join(L) + "\n", "duplicatelabel", "count", [i + 1]
+    if k == "dup-sep":
+        i = L.index("li a0, %s" % L[L.index("main:") + 1].split(", ")[1])
+        L.insert(i, "%s:" % name)
+        j = L.index("addi a0, a0, 2")
+        L.insert(j, "%s:" % name)
+        return "\n".join(L) + "\n", "duplicatelabel", name, [j]
+    if k == "dup-trailing":
+        L += ["%s:" % name, "%s:" % name]
+        return "\n".join(L) + "\n", "duplicatelabel", name, [len(L) - 1]
+    if k == "dup-directive-between":
+        i = L.index("addi a0, a0, 1")
+        L[i:i] = ["%s:" % name, ".text", "%s:" % name]
+        return "\n".join(L) + "\n", "duplicatelabel", name, [i + 2]
+    if k == "dup-code-data":
+        i = L.index("addi a0, a0, 1")
+        L.insert(i, "count:")
+        lines = [n for n, l in enumerate(L) if l.startswith("count:")]
+        return "\n".join(L) + "\n", "duplicatelabel", "count", lines[1:]
+    if k.startswith("undefined"):
+        use = {"undefined-jump": "j %s", "undefined-branch": "bnez a0, %s", "undefined-la": "la a1, %s", "undefined-call": "jal %s"}[k] % "nowhere"
+        i = L.index("addi a0, a0, 1")
+        L.insert(i, use)
+        return "\n".join(L) + "\n", "labelsnotdefined", "nowhere", [i]
+    if k == "label-at-eof":       # a label that is jumped to but has no instruction after it
+        i = L.index("addi a0, a0, 1")
+        L.insert(i, rng.choice(["j %s", "bnez a0, %s"]) % name)   # (a CALL to such a label is analysed: the call has no known target)
+        L += ["%s:" % name] + ([".data", "v: .word 1"] if rng.random() < 0.3 else [])
+        return "\n".join(L) + "\n", "labelwithoutinstruction", name, [i, L.index("%s:" % name)]
+    i = L.index("ret")
+    L[i] = "j f"
+    return "\n".join(L) + "\n", "functionwithoutreturn", "f", [L.index("f:"), L.index("f:") + 1]
